@@ -17,114 +17,7 @@ pub(crate) struct Layout {
     pub n: usize,
 }
 
-pub(crate) const LAY_EMPTY0: u8 = 0;
-pub(crate) const LAY_EMPTY2: u8 = 1;
-pub(crate) const LAY_L0_22: u8 = 2; // levels 0: root -> d(e0,e1) d(e2,e3)
-pub(crate) const LAY_L0_121: u8 = 3; // levels 0: root -> d(e0) d(e1,e2) d(e3)
-pub(crate) const LAY_L1_211: u8 = 4; // levels 1: root -> l1 -> d(e0,e1) d(e2) d(e3)
-pub(crate) const LAY_L2_21_2: u8 = 5; // levels 2: root -> l1 -> A[d(e0,e1) d(e2)]  B[d(e3,e4)]
-pub(crate) const LAY_L2_1_12: u8 = 6; // levels 2: root -> l1 -> A[d(e0)]  B[d(e1) d(e2,e3)]
-pub(crate) const LAY_L3: u8 = 7; // levels 3: root -> l1 -> P[A[d(e0)] B[d(e1)]]  Q[C[d(e2) d(e3)]]
-pub(crate) const LAY_L0_1: u8 = 8; // levels 0: root -> d(e0)
-pub(crate) const LAY_L2_2_2_1: u8 = 9; // levels 2: root -> l1 -> A[d(e0,e1)] B[d(e2,e3)] C[d(e4)]
-
-fn ch(a: usize, b: usize, c: usize, d: usize) -> [usize; 4] {
-    [a, b, c, d]
-}
-
-/// Build one layout of the family the real writer can produce (structure concrete, keys symbolic).
-pub(crate) fn build_layout(id: u8, minlen: usize, maxlen: usize) -> Layout {
-    match id {
-        LAY_EMPTY0 => {
-            let root = index_block(&ch(0, 0, 0, 0), 0);
-            Layout { root, levels: 0, n: 0 }
-        }
-        LAY_EMPTY2 => {
-            let root = index_block(&ch(0, 0, 0, 0), 0);
-            Layout { root, levels: 2, n: 0 }
-        }
-        LAY_L0_1 => {
-            let e = add_entries(1, minlen, maxlen);
-            let d1 = data_block(e, 1);
-            let root = index_block(&ch(d1, 0, 0, 0), 1);
-            Layout { root, levels: 0, n: 1 }
-        }
-        LAY_L0_22 => {
-            let e = add_entries(4, minlen, maxlen);
-            let d1 = data_block(e, 2);
-            let d2 = data_block(e + 2, 2);
-            let root = index_block(&ch(d1, d2, 0, 0), 2);
-            Layout { root, levels: 0, n: 4 }
-        }
-        LAY_L0_121 => {
-            let e = add_entries(4, minlen, maxlen);
-            let d1 = data_block(e, 1);
-            let d2 = data_block(e + 1, 2);
-            let d3 = data_block(e + 3, 1);
-            let root = index_block(&ch(d1, d2, d3, 0), 3);
-            Layout { root, levels: 0, n: 4 }
-        }
-        LAY_L1_211 => {
-            let e = add_entries(4, minlen, maxlen);
-            let d1 = data_block(e, 2);
-            let d2 = data_block(e + 2, 1);
-            let d3 = data_block(e + 3, 1);
-            let l1 = index_block(&ch(d1, d2, d3, 0), 3);
-            let root = index_block(&ch(l1, 0, 0, 0), 1);
-            Layout { root, levels: 1, n: 4 }
-        }
-        LAY_L2_21_2 => {
-            let e = add_entries(5, minlen, maxlen);
-            let d1 = data_block(e, 2);
-            let d2 = data_block(e + 2, 1);
-            let a = index_block(&ch(d1, d2, 0, 0), 2);
-            let d3 = data_block(e + 3, 2);
-            let b = index_block(&ch(d3, 0, 0, 0), 1);
-            let l1 = index_block(&ch(a, b, 0, 0), 2);
-            let root = index_block(&ch(l1, 0, 0, 0), 1);
-            Layout { root, levels: 2, n: 5 }
-        }
-        LAY_L2_1_12 => {
-            let e = add_entries(4, minlen, maxlen);
-            let d1 = data_block(e, 1);
-            let a = index_block(&ch(d1, 0, 0, 0), 1);
-            let d2 = data_block(e + 1, 1);
-            let d3 = data_block(e + 2, 2);
-            let b = index_block(&ch(d2, d3, 0, 0), 2);
-            let l1 = index_block(&ch(a, b, 0, 0), 2);
-            let root = index_block(&ch(l1, 0, 0, 0), 1);
-            Layout { root, levels: 2, n: 4 }
-        }
-        LAY_L2_2_2_1 => {
-            let e = add_entries(5, minlen, maxlen);
-            let d1 = data_block(e, 2);
-            let a = index_block(&ch(d1, 0, 0, 0), 1);
-            let d2 = data_block(e + 2, 2);
-            let b = index_block(&ch(d2, 0, 0, 0), 1);
-            let d3 = data_block(e + 4, 1);
-            let c = index_block(&ch(d3, 0, 0, 0), 1);
-            let l1 = index_block(&ch(a, b, c, 0), 3);
-            let root = index_block(&ch(l1, 0, 0, 0), 1);
-            Layout { root, levels: 2, n: 5 }
-        }
-        _ => {
-            // LAY_L3
-            let e = add_entries(4, minlen, maxlen);
-            let d1 = data_block(e, 1);
-            let a = index_block(&ch(d1, 0, 0, 0), 1);
-            let d2 = data_block(e + 1, 1);
-            let b = index_block(&ch(d2, 0, 0, 0), 1);
-            let p = index_block(&ch(a, b, 0, 0), 2);
-            let d3 = data_block(e + 2, 1);
-            let d4 = data_block(e + 3, 1);
-            let c = index_block(&ch(d3, d4, 0, 0), 2);
-            let q = index_block(&ch(c, 0, 0, 0), 1);
-            let l1 = index_block(&ch(p, q, 0, 0), 2);
-            let root = index_block(&ch(l1, 0, 0, 0), 1);
-            Layout { root, levels: 3, n: 4 }
-        }
-    }
-}
+include!("layout_gen.rs");
 
 pub(crate) fn open(l: &Layout, version: FileVersion) -> Cur {
     let reader = Reader {
